@@ -10,7 +10,7 @@ EXC = (ValueError, TypeError, AttributeError, KeyError, IndexError)
 
 COMPOSE = {
     "id": [None, 5, "", "nodate", []], "type": ["bogus", None, 5], "date": ["2024", "2024010a", None, 20240101],
-    "respin": ["1", None, 1.5], "label": ["GA", "RC-1", 5, "Beta-1.0.1", "rc-1.0"], "final": ["yes", None, 1],
+    "respin": ["1", None, 1.5], "label": ["GA", "RC-1", 5, "Beta-1.0.1", "rc-1.0", "RC-1. 0", "Beta-1.0 ", "Alpha-1_0.2", "Update-1.\t2", " RC-1.0"], "final": ["yes", None, 1],
 }
 CI_RELEASE = {"name": [None, 5], "short": [None, 5], "version": ["1.", "1..2", None, 5, "1a", ""], "type": ["bogus", None, "GA"],
               "is_layered": ["yes", None, 1], "internal": ["no", None]}
@@ -123,6 +123,7 @@ def generate(rng, kind, n):
                 plat = sorted(d["images"])[0]
                 opts.append(("images", [plat], "path", "/abs/boot.iso"))
                 opts.append(("images", ["unreferenced-platform"], "platform", "images/x"))
+                opts.append(("images", ["%s-%s" % (plat, d["tree"]["arch"])], "platform", "images/x"))
             opts.append(("stage2", [], "mainimage", "/abs/install.img"))
             opts.append(("stage2", [], "mainimage", 5))
             opts.append(("checksums", [], "path", "/abs/path"))
